@@ -309,6 +309,111 @@ def rule_atomic_counter(ctx, rid, r):
                    f"(a successor starts while predecessors are outstanding, or is never enqueued)", head(n))
 
 
+MUTATORS = {"remove", "discard", "pop", "popitem", "add", "append", "appendleft", "extend", "insert", "update", "clear", "setdefault",
+            "popleft", "difference_update", "intersection_update", "symmetric_difference_update", "__setitem__", "__delitem__", "sort", "reverse"}
+
+
+def rule_shared_state_atomic(ctx, rid, engine):
+    """Check-then-act on state shared between the workers (role-free form of A2).  In every closure of the engine - the code the
+    worker threads execute - a variable of the engine's scope (or a local alias of one of its elements, `x = shared[k]`) that the
+    closure *modifies* (augmented / subscript assignment, nonlocal rebinding to a computed value, a mutating container method) must be
+    modified, and tested, inside a lock region; a test that reads such state lies in the same lock region as the modification that
+    precedes it.  Flags that are only ever assigned constants (the stop flag) and containers that are only read are exempt."""
+    m = ctx.model
+    e = engine
+    n_sites = 0
+    for cb in e.all_nested():
+        if isinstance(cb.node, ast.Lambda):
+            continue
+        mod = cb.module
+        locks = lock_withs(m, cb)
+        shared = {n for n in names_free_in(m, cb, e)}
+        # local aliases of elements of shared containers
+        alias = {}
+        for n in cb.own_nodes():
+            if isinstance(n, ast.Assign) and len(n.targets) == 1 and isinstance(n.targets[0], ast.Name):
+                v = n.value
+                base = v
+                while isinstance(base, (ast.Subscript, ast.Attribute)):
+                    base = base.value
+                if isinstance(v, (ast.Subscript, ast.Attribute)) and isinstance(base, ast.Name) and base.id in shared:
+                    alias[n.targets[0].id] = base.id
+                elif isinstance(v, ast.Call) and isinstance(v.func, ast.Attribute) and v.func.attr in ("get", "__getitem__") \
+                        and isinstance(v.func.value, ast.Name) and v.func.value.id in shared:
+                    alias[n.targets[0].id] = v.func.value.id
+
+        def root(x):
+            while isinstance(x, (ast.Subscript, ast.Attribute)):
+                x = x.value
+            if isinstance(x, ast.Name):
+                if x.id in alias:
+                    return alias[x.id]
+                if x.id in shared:
+                    return x.id
+            return None
+        mutated = {}  # shared name -> [mutation node]
+        for n in cb.own_nodes():
+            tg = []
+            if isinstance(n, ast.AugAssign):
+                tg = [n.target]
+            elif isinstance(n, ast.Assign):
+                tg = [t for t in n.targets for t in (t.elts if isinstance(t, (ast.Tuple, ast.List)) else [t])]
+            elif isinstance(n, ast.Delete):
+                tg = list(n.targets)
+            for t in tg:
+                if isinstance(t, ast.Name):
+                    if t.id in cb.nonlocals and t.id in shared and not (isinstance(n, ast.Assign) and isinstance(n.value, ast.Constant)):
+                        mutated.setdefault(t.id, []).append(n)
+                elif isinstance(t, (ast.Subscript, ast.Attribute)):
+                    r_ = root(t)
+                    if r_ is not None:
+                        mutated.setdefault(r_, []).append(n)
+            if isinstance(n, ast.Call) and isinstance(n.func, ast.Attribute) and n.func.attr in MUTATORS:
+                r_ = root(n.func.value)
+                if r_ is not None and not (ext_names(m, cb, n) & (PUT | GET | {"queue.Queue.task_done"})):
+                    mutated.setdefault(r_, []).append(n)
+        if not mutated:
+            continue
+
+        def region(n):
+            for w, lockexpr in locks:
+                if inside(mod, n, w):
+                    return w
+            return None
+        for name, muts in sorted(mutated.items()):
+            for mu in muts:
+                n_sites += 1
+                w = region(mu)
+                ctx.ob(rid, f"{cb.short}/{name}-modified-under-lock", w is not None, loc(cb, mu),
+                       f"shared `{name}` is modified inside a lock region" if w is not None else
+                       f"shared `{name}` is modified by the workers outside any lock region", head(stmt_of(mod, mu)))
+            regions = {region(mu) for mu in muts}
+            for n in cb.own_nodes():
+                if not isinstance(n, (ast.If, ast.While, ast.IfExp, ast.Assert)):
+                    continue
+                reads = [x for x in ast.walk(n.test) if isinstance(x, ast.Name) and (x.id == name or alias.get(x.id) == name)]
+                if not reads:
+                    continue
+                n_sites += 1
+                w = region(n)
+                ok = w is not None and w in regions
+                ctx.ob(rid, f"{cb.short}/{name}-tested-with-its-modification", ok, loc(cb, n),
+                       f"the test on shared `{name}` lies in the lock region of its modification (one critical section)" if ok else
+                       f"the test `{norm(n.test)[:50]}` reads shared `{name}`, which this function modifies, outside the lock region of that "
+                       f"modification: two workers can both modify and then both observe the same state (e.g. both find a successor ready "
+                       f"and enqueue it twice)", head(n))
+    ctx.floor(rid, "modifications / tests of worker-shared state examined", n_sites, 3)
+
+
+def names_free_in(m, f, scope):
+    """Names used in function f (own nodes) that are bound in the enclosing function `scope`."""
+    out = set()
+    for n in f.own_nodes():
+        if isinstance(n, ast.Name) and n.id not in f.params and m.binding_scope(f, n.id) is scope:
+            out.add(n.id)
+    return out
+
+
 # ------------------------------------------------------------------------------------------------ A3 / A4
 def classify_pred_count(m, f, e, depth=0):
     """Class of a predecessor-count expression: 'distinct' or 'per-edge' (None = unknown)."""
